@@ -220,7 +220,36 @@ def classify(kind, info):
     # (2) request body streamed upstream, origin already answered completely, then the client resets the stream:
     #     the reset is not propagated, the upstream stream stays open and occupies a MAX_CONCURRENT_STREAMS slot for ever
     if kind == "client-stream-never-answered" and info.get("leaked_upstream") and not info.get("forwarded") and not info.get("exc_sites"):
+        # (2b) same leak, other path: the client's RST_STREAM reached the proxy WHILE a responseheaders/response hook of that flow
+        #      was pending; HttpStream.check_killed then finishes the flow without telling the upstream connection
+        if info.get("leak_rst_arrived_during_response_hook"):
+            return "upstream-stream-leaked-when-client-reset-arrives-during-pending-response-hook"
         return "upstream-stream-leaked-after-client-reset-of-streamed-request-with-complete-response"
+    return None
+
+
+def client_rst_delivery_step(d, cpeer, key):
+    """Driver step in which the segment holding the client's RST_STREAM frame for stream `key` was delivered to the proxy
+    (from the bytes the h2 client peer wrote and the sizes of the client segments in the driver log)."""
+    sid = getattr(cpeer, "sid_of", {}).get(key)
+    data = getattr(cpeer, "sent_bytes", b"")
+    if sid is None or not data.startswith(P.PREFACE):
+        return None
+    pos, end = len(P.PREFACE), None
+    while pos + 9 <= len(data):
+        length = int.from_bytes(data[pos : pos + 3], "big")
+        if data[pos + 3] == 3 and int.from_bytes(data[pos + 5 : pos + 9], "big") & 0x7FFFFFFF == sid:
+            end = pos + 9 + length
+            break
+        pos += 9 + length
+    if end is None:
+        return None
+    cum = 0
+    for e in d.log:
+        if e[0] == "ev" and e[2].startswith("DataReceived(Client,"):
+            cum += int(e[2][len("DataReceived(Client,") : -1])
+            if cum >= end:
+                return e[1]
     return None
 
 
@@ -321,6 +350,8 @@ def run_case(ctx, opts):
         origin_h2.append((conn, p))
         return p
 
+    hook_spans: list = []
+
     def policy(drv, hook):
         f = getattr(hook, "flow", None)
         if f is None or not hasattr(f, "request"):
@@ -329,6 +360,8 @@ def run_case(ctx, opts):
         s = by_tag.get(m.group(0)) if m else None
         if s is None:
             return None
+        born = next((p.born for p in drv.pending if p.cmd is hook), drv.step_no)
+        hook_spans.append((s["tag"], hook.name, born, drv.step_no))  # the flow's layer is paused from `born` until this step
         if hook.name == "requestheaders" and s["stream_req"]:
             f.request.stream = True
         elif hook.name == "responseheaders" and s["stream_resp"] and f.response is not None:
@@ -409,6 +442,7 @@ def run_case(ctx, opts):
         "exc_sites": {f"{e[0]}@{e[1]}" for e in d.exceptions},
         "window_lowered": srv_window is not None or cli_window is not None,
         "leaked_upstream": False,
+        "leak_rst_arrived_during_response_hook": False,
     }
 
     def viol(kind, extra, info=None):
@@ -592,6 +626,9 @@ def run_case(ctx, opts):
             s_ = by_tag.get(m.group(0)) if m else None
             if s_ is not None and s_["rst_at"] is not None and s_["stream_req"] and not rec["ended"] and rec["reset"] is None and sid in p.finished_answers:
                 case_info["leaked_upstream"] = True
+                rst_step = client_rst_delivery_step(d, cpeer, s_["key"])
+                if rst_step is not None and any(t == s_["tag"] and n in ("responseheaders", "response") and born < rst_step <= done for t, n, born, done in hook_spans):
+                    case_info["leak_rst_arrived_during_response_hook"] = True
 
     # ---- client.stream
     answered_ok = 0
